@@ -126,7 +126,8 @@ def get_root_include_path(filename):
         full_candidate_path = os.path.abspath(
             os.path.normpath(
                 os.path.expanduser(candidate)))
-        if full_file_path.startswith(full_candidate_path):
+        if full_file_path.startswith(
+                os.path.join(full_candidate_path, '')):
             root_path = full_candidate_path
     if root_path is None:
         root_path = os.path.dirname(full_file_path)
